@@ -18,7 +18,7 @@ TABLES_MODULE = "XzVerif.Gen.KernelsTables"
 GRID_MODULE = "XzVerif.Gen.KernelsGrid"
 PROP_MODULES = ["XzVerif.Props.Kernels"]
 # which bridge module each property builds at stage P (a kernel without `props` belongs to DEFAULT_PROPS)
-PROP_MODULES_BY_PID = {"C15": ["XzVerif.Props.KernelsBcj"]}
+PROP_MODULES_BY_PID = {"C15": ["XzVerif.Props.KernelsBcj"], "C09": ["XzVerif.Props.Kernels", "XzVerif.Props.KernelsC09"]}
 DEFAULT_PROPS = ("C02", "C09", "C13")
 
 L = "src/liblzma/"
